@@ -227,27 +227,34 @@ def check(run) -> None:
 
 
 def replay(r) -> List[Tuple[str, dict, str]]:
-    """re-record one random world and judge it with the python restatement of the trace clauses"""
-    from . import c12
+    """re-record one random world and let TLC (PropagationTrace) judge it again"""
+    import json
+    import os
+    import shutil
+    import tempfile
+    from .. import tlc as _tlc
     seed, tidn = r["args"]
     t = record((seed, tidn))
     fails = []
     if not t["store_ok"]:
         fails.append(("StoreUnmodified", {"cause": "store changed"}, "store differs after the call"))
-    for pos, e in enumerate(t["ev"], 1):
-        if e["op"] != "graph":
-            continue
-        c = e["c"]
-        if c["pops"] > min(e["queue"], e["spops"]):
-            fails.append(("PopBudget", {}, f"event {pos}: {c}"))
-        if c["iters"] > min(e["iter"], e["layers"], e["siter"], e["radius"]):
-            fails.append(("LayerBudget", {}, f"event {pos}: {c}"))
-        if e["relax"] != NOCAP and c["props"] > e["relax"]:
-            fails.append(("RelaxBudget", {"cause": "relax_cap=0" if e["relax"] == 0 else "relax_cap>0"}, f"event {pos}: propagations={c['props']} relax_cap={e['relax']}"))
-        ids = e["touched"]
-        if any(ids[i] >= ids[i + 1] for i in range(len(ids) - 1)):
-            fails.append(("TouchedOnceSortedPerGraph", {}, f"event {pos}: {ids}"))
-        ok = c12.reach([tuple(x) for x in e["es"]], e["seeds"], min(e["radius"], e["iter"], e["layers"], e["siter"]))
-        if not set(ids) <= ok:
-            fails.append(("ReachableWithinCaps", {}, f"event {pos}: {sorted(set(ids) - ok)} unreachable"))
+    base = "/verif/.work"
+    os.makedirs(base, exist_ok=True)
+    wd = tempfile.mkdtemp(prefix="C12_replay_", dir=base)
+    try:
+        path = os.path.join(wd, "traces.ndjson")
+        with open(path, "w") as f:
+            f.write(json.dumps({"tid": t["tid"], "ev": t["ev"]}, separators=(",", ":")) + "\n")
+        res = _tlc.run_tlc("PropagationTrace", "SPECIFICATION TraceSpec\nPOSTCONDITION Done\n", wd, name="replay", workers=1,
+                           timeout_s=600, env={"TRACE_FILE": path})
+        verdict, pos = res.verdicts.get(t["tid"], ("no verdict", 0))
+    finally:
+        shutil.rmtree(wd, ignore_errors=True)
+    if verdict != "ok":
+        e = t["ev"][pos - 1] if 0 < pos <= len(t["ev"]) else {}
+        small = {k: e[k] for k in e if k != "es"}
+        sig = {"cause": "trace"}
+        if verdict == "RelaxBudget":
+            sig = {"cause": "relax_cap=0" if e.get("relax") == 0 else "relax_cap>0"}
+        fails.append((verdict, sig, f"random world {tidn} rejected at event {pos}: {small}"))
     return fails
